@@ -201,9 +201,12 @@ def c08(ctx):
                 with gc.open_potentially_compressed_path(p, 'w', encoding='utf8') as f:
                     m.dump(f, sign_openpgp=False)
                 m2 = gmm.ManifestFile()
-                with gc.open_potentially_compressed_path(p, 'r', encoding='utf8') as f:
-                    m2.load(f, verify_openpgp=False)
-                got = [impl.entry_sx(e) for e in m2.entries]
+                try:
+                    with gc.open_potentially_compressed_path(p, 'r', encoding='utf8') as f:
+                        m2.load(f, verify_openpgp=False)
+                    got = [impl.entry_sx(e) for e in m2.entries]
+                except Exception as e:
+                    got = ['raised', repr(e)[:160]]         # what was written is not even read back
                 os.unlink(p)
                 k += 1
                 if canon(got) != canon(es):
